@@ -23,10 +23,10 @@ open Glm.Hand.C14
 
 /-- C14: the epsilon form of `equal` is literally `|fl(x − y)| <= ε` -/
 theorem leAbs32_eq_spec (d e : UInt32) : glmLeAbs32 d e = leAbsSpec32 d e := by
-  unfold glmLeAbs32 leAbsSpec32 glmAbsF32 fle32 flt32 feq32 sign32 mag32 isNaN32; bv_decide
+  unfold glmLeAbs32 leAbsSpec32 glmAbsF32 fle32 flt32 feq32 sign32 mag32 isNaN32; bv_decide (config := { timeout := 180 })
 /-- … and of `notEqual` literally `|fl(x − y)| > ε` -/
 theorem gtAbs32_eq_spec (d e : UInt32) : glmGtAbs32 d e = gtAbsSpec32 d e := by
-  unfold glmGtAbs32 gtAbsSpec32 glmAbsF32 fle32 flt32 feq32 sign32 mag32 isNaN32; bv_decide
+  unfold glmGtAbs32 gtAbsSpec32 glmAbsF32 fle32 flt32 feq32 sign32 mag32 isNaN32; bv_decide (config := { timeout := 180 })
 theorem equalEps32_eq_spec (x y e : UInt32) : glmEqualEps32 x y e = leAbsSpec32 (subBits32 x y) e := by
   unfold glmEqualEps32; exact leAbs32_eq_spec _ _
 theorem notEqualEps32_eq_spec (x y e : UInt32) : glmNotEqualEps32 x y e = gtAbsSpec32 (subBits32 x y) e := by
@@ -34,24 +34,24 @@ theorem notEqualEps32_eq_spec (x y e : UInt32) : glmNotEqualEps32 x y e = gtAbsS
 /-- without NaN, `notEqual` is the negation of `equal` -/
 theorem gtAbs32_eq_not_le (d e : UInt32) (hd : isNaN32 d = false) (he : isNaN32 e = false) :
     glmGtAbs32 d e = !glmLeAbs32 d e := by
-  unfold glmGtAbs32 glmLeAbs32 glmAbsF32 fle32 flt32 feq32 sign32 mag32 isNaN32 at *; bv_decide
+  unfold glmGtAbs32 glmLeAbs32 glmAbsF32 fle32 flt32 feq32 sign32 mag32 isNaN32 at *; bv_decide (config := { timeout := 180 })
 /-- with a NaN both are false -/
 theorem leAbs_gtAbs32_nan (d e : UInt32) (h : (isNaN32 d || isNaN32 e) = true) :
     glmLeAbs32 d e = false ∧ glmGtAbs32 d e = false := by
-  unfold glmGtAbs32 glmLeAbs32 glmAbsF32 fle32 flt32 feq32 sign32 mag32 isNaN32 at *; bv_decide
+  unfold glmGtAbs32 glmLeAbs32 glmAbsF32 fle32 flt32 feq32 sign32 mag32 isNaN32 at *; bv_decide (config := { timeout := 180 })
 
 /-! `gtc/epsilon` (known finding `epsilonEqual: |fl(x-y)| == epsilon`) -/
 
 /-- what does hold: `epsilonEqual` agrees with `|d| <= ε` unless `|d| == ε` -/
 theorem ltAbs32_partial (d e : UInt32) (h : feq32 (mag32 d) e = false) : glmLtAbs32 d e = leAbsSpec32 d e := by
-  unfold glmLtAbs32 leAbsSpec32 glmAbsF32 fle32 flt32 feq32 sign32 mag32 isNaN32 at *; bv_decide
+  unfold glmLtAbs32 leAbsSpec32 glmAbsF32 fle32 flt32 feq32 sign32 mag32 isNaN32 at *; bv_decide (config := { timeout := 180 })
 theorem geAbs32_partial (d e : UInt32) (h : feq32 (mag32 d) e = false) : glmGeAbs32 d e = gtAbsSpec32 d e := by
-  unfold glmGeAbs32 gtAbsSpec32 glmAbsF32 fle32 flt32 feq32 sign32 mag32 isNaN32 at *; bv_decide
+  unfold glmGeAbs32 gtAbsSpec32 glmAbsF32 fle32 flt32 feq32 sign32 mag32 isNaN32 at *; bv_decide (config := { timeout := 180 })
 /-- and it is the opposite when `|d| == ε` -/
 theorem ltAbs32_at_eq (d e : UInt32) (h : feq32 (mag32 d) e = true) :
     glmLtAbs32 d e = false ∧ leAbsSpec32 d e = true ∧ glmGeAbs32 d e = true ∧ gtAbsSpec32 d e = false := by
   unfold glmLtAbs32 glmGeAbs32 leAbsSpec32 gtAbsSpec32 glmAbsF32 fle32 flt32 feq32 sign32 mag32 isNaN32 at *
-  bv_decide
+  bv_decide (config := { timeout := 180 })
 /-- the full statement is refuted: d = fl(1 − 1.5) = −0.5, ε = 0.5 -/
 theorem ltAbs32_refuted : ¬ ∀ d e : UInt32, glmLtAbs32 d e = leAbsSpec32 d e := by
   intro h; have := h 0xBF000000 0x3F000000; revert this; decide
@@ -59,7 +59,7 @@ theorem geAbs32_refuted : ¬ ∀ d e : UInt32, glmGeAbs32 d e = gtAbsSpec32 d e 
   intro h; have := h 0xBF000000 0x3F000000; revert this; decide
 /-- `epsilonEqual(x, x, 0)` is false -/
 theorem ltAbs32_zero (d : UInt32) : glmLtAbs32 d 0 = false := by
-  unfold glmLtAbs32 glmAbsF32 fle32 flt32 feq32 sign32 mag32 isNaN32; bv_decide
+  unfold glmLtAbs32 glmAbsF32 fle32 flt32 feq32 sign32 mag32 isNaN32; bv_decide (config := { timeout := 180 })
 
 -- non-vacuity
 example : glmLeAbs32 0xBF000000 0x3F000000 = true ∧ glmLeAbs32 0xBF800000 0x3F000000 = false ∧ glmGtAbs32 0xBF800000 0x3F000000 = true ∧
@@ -69,10 +69,10 @@ example : glmLeAbs32 0xBF000000 0x3F000000 = true ∧ glmLeAbs32 0xBF800000 0x3F
 
 /-- C14: the epsilon form of `equal` is literally `|fl(x − y)| <= ε` -/
 theorem leAbs64_eq_spec (d e : UInt64) : glmLeAbs64 d e = leAbsSpec64 d e := by
-  unfold glmLeAbs64 leAbsSpec64 glmAbsF64 fle64 flt64 feq64 sign64 mag64 isNaN64; bv_decide
+  unfold glmLeAbs64 leAbsSpec64 glmAbsF64 fle64 flt64 feq64 sign64 mag64 isNaN64; bv_decide (config := { timeout := 180 })
 /-- … and of `notEqual` literally `|fl(x − y)| > ε` -/
 theorem gtAbs64_eq_spec (d e : UInt64) : glmGtAbs64 d e = gtAbsSpec64 d e := by
-  unfold glmGtAbs64 gtAbsSpec64 glmAbsF64 fle64 flt64 feq64 sign64 mag64 isNaN64; bv_decide
+  unfold glmGtAbs64 gtAbsSpec64 glmAbsF64 fle64 flt64 feq64 sign64 mag64 isNaN64; bv_decide (config := { timeout := 180 })
 theorem equalEps64_eq_spec (x y e : UInt64) : glmEqualEps64 x y e = leAbsSpec64 (subBits64 x y) e := by
   unfold glmEqualEps64; exact leAbs64_eq_spec _ _
 theorem notEqualEps64_eq_spec (x y e : UInt64) : glmNotEqualEps64 x y e = gtAbsSpec64 (subBits64 x y) e := by
@@ -80,24 +80,24 @@ theorem notEqualEps64_eq_spec (x y e : UInt64) : glmNotEqualEps64 x y e = gtAbsS
 /-- without NaN, `notEqual` is the negation of `equal` -/
 theorem gtAbs64_eq_not_le (d e : UInt64) (hd : isNaN64 d = false) (he : isNaN64 e = false) :
     glmGtAbs64 d e = !glmLeAbs64 d e := by
-  unfold glmGtAbs64 glmLeAbs64 glmAbsF64 fle64 flt64 feq64 sign64 mag64 isNaN64 at *; bv_decide
+  unfold glmGtAbs64 glmLeAbs64 glmAbsF64 fle64 flt64 feq64 sign64 mag64 isNaN64 at *; bv_decide (config := { timeout := 180 })
 /-- with a NaN both are false -/
 theorem leAbs_gtAbs64_nan (d e : UInt64) (h : (isNaN64 d || isNaN64 e) = true) :
     glmLeAbs64 d e = false ∧ glmGtAbs64 d e = false := by
-  unfold glmGtAbs64 glmLeAbs64 glmAbsF64 fle64 flt64 feq64 sign64 mag64 isNaN64 at *; bv_decide
+  unfold glmGtAbs64 glmLeAbs64 glmAbsF64 fle64 flt64 feq64 sign64 mag64 isNaN64 at *; bv_decide (config := { timeout := 180 })
 
 /-! `gtc/epsilon` (known finding `epsilonEqual: |fl(x-y)| == epsilon`) -/
 
 /-- what does hold: `epsilonEqual` agrees with `|d| <= ε` unless `|d| == ε` -/
 theorem ltAbs64_partial (d e : UInt64) (h : feq64 (mag64 d) e = false) : glmLtAbs64 d e = leAbsSpec64 d e := by
-  unfold glmLtAbs64 leAbsSpec64 glmAbsF64 fle64 flt64 feq64 sign64 mag64 isNaN64 at *; bv_decide
+  unfold glmLtAbs64 leAbsSpec64 glmAbsF64 fle64 flt64 feq64 sign64 mag64 isNaN64 at *; bv_decide (config := { timeout := 180 })
 theorem geAbs64_partial (d e : UInt64) (h : feq64 (mag64 d) e = false) : glmGeAbs64 d e = gtAbsSpec64 d e := by
-  unfold glmGeAbs64 gtAbsSpec64 glmAbsF64 fle64 flt64 feq64 sign64 mag64 isNaN64 at *; bv_decide
+  unfold glmGeAbs64 gtAbsSpec64 glmAbsF64 fle64 flt64 feq64 sign64 mag64 isNaN64 at *; bv_decide (config := { timeout := 180 })
 /-- and it is the opposite when `|d| == ε` -/
 theorem ltAbs64_at_eq (d e : UInt64) (h : feq64 (mag64 d) e = true) :
     glmLtAbs64 d e = false ∧ leAbsSpec64 d e = true ∧ glmGeAbs64 d e = true ∧ gtAbsSpec64 d e = false := by
   unfold glmLtAbs64 glmGeAbs64 leAbsSpec64 gtAbsSpec64 glmAbsF64 fle64 flt64 feq64 sign64 mag64 isNaN64 at *
-  bv_decide
+  bv_decide (config := { timeout := 180 })
 /-- the full statement is refuted: d = fl(1 − 1.5) = −0.5, ε = 0.5 -/
 theorem ltAbs64_refuted : ¬ ∀ d e : UInt64, glmLtAbs64 d e = leAbsSpec64 d e := by
   intro h; have := h 0xBFE0000000000000 0x3FE0000000000000; revert this; decide
@@ -105,7 +105,7 @@ theorem geAbs64_refuted : ¬ ∀ d e : UInt64, glmGeAbs64 d e = gtAbsSpec64 d e 
   intro h; have := h 0xBFE0000000000000 0x3FE0000000000000; revert this; decide
 /-- `epsilonEqual(x, x, 0)` is false -/
 theorem ltAbs64_zero (d : UInt64) : glmLtAbs64 d 0 = false := by
-  unfold glmLtAbs64 glmAbsF64 fle64 flt64 feq64 sign64 mag64 isNaN64; bv_decide
+  unfold glmLtAbs64 glmAbsF64 fle64 flt64 feq64 sign64 mag64 isNaN64; bv_decide (config := { timeout := 180 })
 
 -- non-vacuity
 example : glmLeAbs64 0xBFE0000000000000 0x3FE0000000000000 = true ∧ glmLeAbs64 0xBFF0000000000000 0x3FE0000000000000 = false ∧ glmGtAbs64 0xBFF0000000000000 0x3FE0000000000000 = true ∧
